@@ -461,7 +461,11 @@ def symbolic_mo_to_numeric_mo(basis: BasisSet, mo, dtype):
 
     for i, terms in np.ndenumerate(mo):
         for term in terms:
-            mo_mat[i] += basis.op_mat(term)
+            mat = basis.op_mat(term)
+            if np.iscomplexobj(mat) and not np.iscomplexobj(mo_mat):
+                # complex local matrix (e.g. sigma_y, p) combined with real factors
+                mo_mat = mo_mat.astype(np.result_type(mo_mat.dtype, mat.dtype))
+            mo_mat[i] += mat
 
     axes = list(range(mo.ndim + 2))
     axes = axes[:-3] + axes[-2:] + [axes[-3]]
